@@ -70,8 +70,10 @@ EXPORT void cplx_fftvec_mul_simple(uint32_t m, void* r, const void* a, const voi
   static CPLX_FFTVEC_MUL_PRECOMP p[31] = {0};
   CPLX_FFTVEC_MUL_PRECOMP* f = p + log2m(m);
   if (!f->function) {
+    SPQLIOS_VERIF_EVENT(1, 9, log2m(m), 0, 0, 0);
     if (!init_cplx_fftvec_mul_precomp(f, m)) abort();
   }
+  SPQLIOS_VERIF_EVENT(2, 9, log2m(m), f->m, 0, 0);
   f->function(f, r, a, b);
 }
 
@@ -79,7 +81,9 @@ EXPORT void cplx_fftvec_addmul_simple(uint32_t m, void* r, const void* a, const 
   static CPLX_FFTVEC_ADDMUL_PRECOMP p[31] = {0};
   CPLX_FFTVEC_ADDMUL_PRECOMP* f = p + log2m(m);
   if (!f->function) {
+    SPQLIOS_VERIF_EVENT(1, 10, log2m(m), 0, 0, 0);
     if (!init_cplx_fftvec_addmul_precomp(f, m)) abort();
   }
+  SPQLIOS_VERIF_EVENT(2, 10, log2m(m), f->m, 0, 0);
   f->function(f, r, a, b);
 }
